@@ -5,6 +5,8 @@ OUT="${1:-/tmp/all_seeds.txt}"; : > "$OUT"
 git -C /repo worktree list | grep -q /tmp/mut || git -C /repo worktree add -q --detach /tmp/mut HEAD
 for d in /verif/seeded/*/; do
   s=$(basename "$d"); id=$(echo "$s" | cut -c1-3)
+  # a seed written against one property whose change is a violation of a neighbouring property's statement names that check in meta.json
+  rc_=$(jq -r '.run_check // empty' "$d/meta.json" 2>/dev/null); [ -n "$rc_" ] && id="$rc_"
   git -C /tmp/mut checkout -q -- . && git -C /tmp/mut checkout -q --detach "$(git -C /repo rev-parse HEAD)" && git -C /tmp/mut apply "$d/patch.diff" || { echo "$s $id PATCH-FAILS" >> "$OUT"; continue; }
   VERIF_REPO=/tmp/mut /verif/check "$id" --tier quick > /tmp/all_seeds.$s.log 2>&1; rc=$?
   if [ $rc -eq 1 ] && grep -q "^VIOLATION property=$id" /tmp/all_seeds.$s.log; then r=CAUGHT; elif [ $rc -eq 0 ]; then r=MISSED; else r="BROKEN(rc=$rc)"; fi
